@@ -10,6 +10,8 @@ def stages(tier):
          "timeout": 300, "timeout_thorough": 1800},
         {"name": "e2e", "cmd": "relay", "args": ["-prop", "C10"], "check": "Check.Tunnel.check_tunnel",
          "timeout": 300, "timeout_thorough": 1800},
+        {"name": "pipelined", "cmd": "relayx", "args": ["-prop", "C10x"], "check": "pipelined requests on one tunnel answered in order as on their own tunnels (direct)",
+         "timeout": 300, "timeout_thorough": 1200},
     ]
 
 
